@@ -2,6 +2,9 @@
    Only statements + `exact lemma` + Print Assumptions here. *)
 From Coq Require Import ZArith List.
 From HP Require Import Bytes Utf8 Sha1 Wire ParamsOK WireRoundtrip.
+From HP Require ProtoGen ProtoGenEq ProtoGenProps.
+From HP Require Import PyPrim.
+Import ProtoGenProps(src_decodes_to).
 Import ListNotations.
 Open Scope Z_scope.
 
@@ -40,9 +43,49 @@ Theorem C05_error : forall err, utf8_valid err = true -> 5 + zlen err <= limitP 
   exists fr body, msgerror err = Some fr /\ decodes_to limitP fr 0 body /\ readerror body = Some err.
 Proof. exact WireRoundtrip.C05_error. Qed.
 
+(* ---- the same six statements for the SOURCE: ProtoGen.v is the Gallina text that harness/pytrans.py
+   translated from /repo/hpfeeds/protocol.py on this run (dynamic Python values: VStr s = the str whose
+   UTF-8 encoding is s, VBytes b = bytes; Ok v = returns v).
+   src_decodes_to fr op body := feeding fr to a fresh translated Unpacker and calling __next__ until it
+   raises yields exactly [(op, body)], leaves the buffer empty and ends with StopIteration, and the
+   frame's length header equals its length. ---- *)
+Theorem C05_src_info : forall name rand, wf_str name -> zlen rand <= 20 ->
+  exists fr body, ProtoGen.msginfo (VStr name) (VBytes rand) = Ok (VBytes fr) /\ src_decodes_to fr 1 body /\
+                  ProtoGen.readinfo (VBytes body) = Ok (VTuple [VStr name; VBytes rand]).
+Proof. exact ProtoGenProps.src_info. Qed.
+Theorem C05_src_auth : forall rand ident secret, wf_str ident ->
+  exists fr body, ProtoGen.msgauth (VBytes rand) (VStr ident) (VStr secret) = Ok (VBytes fr) /\
+                  src_decodes_to fr 2 body /\
+                  ProtoGen.readauth (VBytes body) = Ok (VTuple [VStr ident; VBytes (sha1 (rand ++ secret))]).
+Proof. exact ProtoGenProps.src_auth. Qed.
+Theorem C05_src_publish : forall ident chan data, wf_str ident -> wf_str chan ->
+  7 + zlen ident + zlen chan + zlen data <= limitP 3 ->
+  exists fr body, ProtoGen.msgpublish (VStr ident) (VStr chan) (VBytes data) = Ok (VBytes fr) /\
+                  src_decodes_to fr 3 body /\
+                  ProtoGen.readpublish (VBytes body) = Ok (VTuple [VStr ident; VStr chan; VBytes data]).
+Proof. exact ProtoGenProps.src_publish. Qed.
+Theorem C05_src_subscribe : forall ident chan, wf_str ident -> wf_str chan ->
+  exists fr body, ProtoGen.msgsubscribe (VStr ident) (VStr chan) = Ok (VBytes fr) /\ src_decodes_to fr 4 body /\
+                  ProtoGen.readsubscribe (VBytes body) = Ok (VTuple [VStr ident; VStr chan]).
+Proof. exact ProtoGenProps.src_subscribe. Qed.
+Theorem C05_src_unsubscribe : forall ident chan, wf_str ident -> wf_str chan ->
+  exists fr body, ProtoGen.msgunsubscribe (VStr ident) (VStr chan) = Ok (VBytes fr) /\ src_decodes_to fr 5 body /\
+                  ProtoGen.readunsubscribe (VBytes body) = Ok (VTuple [VStr ident; VStr chan]).
+Proof. exact ProtoGenProps.src_unsubscribe. Qed.
+Theorem C05_src_error : forall err, utf8_valid err = true -> 5 + zlen err <= limitP 0 ->
+  exists fr body, ProtoGen.msgerror (VStr err) = Ok (VBytes fr) /\ src_decodes_to fr 0 body /\
+                  ProtoGen.readerror (VBytes body) = Ok (VStr err).
+Proof. exact ProtoGenProps.src_error. Qed.
+
 Print Assumptions C05_info.
 Print Assumptions C05_auth.
 Print Assumptions C05_publish.
 Print Assumptions C05_subscribe.
 Print Assumptions C05_unsubscribe.
 Print Assumptions C05_error.
+Print Assumptions C05_src_info.
+Print Assumptions C05_src_auth.
+Print Assumptions C05_src_publish.
+Print Assumptions C05_src_subscribe.
+Print Assumptions C05_src_unsubscribe.
+Print Assumptions C05_src_error.
